@@ -103,8 +103,35 @@ func (e *recordEngine) Generate(profile string, seed uint64, tier string) (*Plan
 	if tier == "thorough" || profile == "corrupt" {
 		maxLarge = 5
 	}
+	// off tracks the offset inside the current 32 KiB block as the writers lay
+	// out fragments (header + payload; a block tail shorter than a header is
+	// zero-filled), so that some records can be sized to end an exact number
+	// of bytes before a block boundary - the off-by-one territory of the
+	// writer's padding rule and the reader's zeroed-tail rule.
+	hdr := map[string]int{"legacy": 7, "recyclable": 11, "walsync": 19}[cfg.Format]
+	off := 0
+	advance := func(size int) {
+		for first := true; first || size > 0; first = false {
+			if recBlock-off < hdr {
+				off = 0
+			}
+			frag := min(size, recBlock-off-hdr)
+			off += hdr + frag
+			size -= frag
+			if off == recBlock {
+				off = 0
+			}
+		}
+	}
 	for i := 0; i < n; i++ {
 		s := recSpec{Size: recSizes(&r), Sync: r.IntN(3) == 0}
+		if r.IntN(5) == 0 {
+			// end this record's last fragment exactly rem bytes before the block end
+			rem := r.IntN(2*hdr + 4)
+			if sz := recBlock - off - hdr - rem; sz >= 0 && recBlock-off >= hdr && (sz <= 8<<10 || large < maxLarge) {
+				s.Size = sz
+			}
+		}
 		if s.Size > 8<<10 {
 			if large >= maxLarge {
 				s.Size = 5 + s.Size%1500
@@ -116,6 +143,7 @@ func (e *recordEngine) Generate(profile string, seed uint64, tier string) (*Plan
 			s.Sync = true
 		}
 		s.Wait = s.Sync && (profile != "logwriter" || r.IntN(2) == 0)
+		advance(s.Size)
 		recs = append(recs, s)
 	}
 	p := &Plan{Engine: "record", Profile: profile, Seed: seed, Tier: tier}
